@@ -297,13 +297,23 @@ func (rs *runState) judge(prop string, clientFinished bool, out *core.Outcome) {
 		}
 		var s arqSet
 		var frames [][]byte
+		var frameMin []bool
 		maxFrame := 0
+		// TCP: ARQ frames that reached the host on the data socket before the
+		// CONNECTED line of their connection reached it on the control socket
+		// (always a leading run: the data socket is FIFO).
+		early := 0
 		for _, e := range bySent {
 			if e.Kind != "arq" || e.Bad || e.Conn != mc.ID || e.SentAt < 0 {
 				continue
 			}
+			if p.Mode == "tcp" && early == len(frames) && e.DeliveredAt >= 0 && mc.Connected != nil &&
+				(mc.Connected.DeliveredAt < 0 || e.DeliveredAt < mc.Connected.DeliveredAt) {
+				early++
+			}
 			s.max = append(s.max, e.Payload...)
 			frames = append(frames, e.Payload)
+			frameMin = append(frameMin, e.DeliveredAt >= 0 && (cr.CloseAt < 0 || e.DeliveredAt < cr.CloseAt))
 			if len(e.Payload) > maxFrame {
 				maxFrame = len(e.Payload)
 			}
@@ -316,6 +326,27 @@ func (rs *runState) judge(prop string, clientFinished bool, out *core.Outcome) {
 		}
 		if !strict {
 			continue
+		}
+		if early > 0 {
+			sim.Probe("arq-frame-reached-host-before-its-connected-line")
+			readerWaiting := cr.Panic == nil && !(cr.ReadEnd < 0 && !cr.inRead)
+			complete := commonPrefix(cr.Got, s.max) == len(cr.Got) && (!readerWaiting || len(cr.Got) >= len(s.min))
+			lostEarly := false
+			for j := 1; j <= early && !complete && !lostEarly; j++ {
+				var amax, amin []byte
+				for i := j; i < len(frames); i++ {
+					amax = append(amax, frames[i]...)
+					if frameMin[i] {
+						amin = append(amin, frames[i]...)
+					}
+				}
+				lostEarly = commonPrefix(cr.Got, amax) == len(cr.Got) && (!readerWaiting || len(cr.Got) >= len(amin))
+			}
+			if lostEarly {
+				// exactly the stream without a leading run of such frames
+				sim.Violate(prop, "read-stream", "frames-before-connected-line-lost/"+tag, "connection %d (%s): Read returned %d bytes: the ARQ payloads the TNC delivered (%d frames, %d bytes) without the first frame(s), which reached the host on the data socket before the CONNECTED line reached it on the control socket (%d such frames)", cr.Idx, cr.Via, len(cr.Got), len(frames), len(s.max), early)
+				continue
+			}
 		}
 		k := commonPrefix(cr.Got, s.max)
 		if k < len(cr.Got) {
